@@ -43,6 +43,10 @@ type MTProto struct {
 	encrypted  bool
 	sessionId  int64
 
+	// salt is replaced by reading routine (bad_server_salt, new_session_created) while other goroutines are
+	// sealing their requests with it
+	saltMutex sync.RWMutex
+
 	// общий мьютекс
 	mutex sync.Mutex
 
@@ -357,7 +361,9 @@ messageTypeSwitching:
 		}
 
 	case *objects.BadServerSalt:
+		m.saltMutex.Lock()
 		m.serverSalt = message.NewSalt
+		m.saltMutex.Unlock()
 		err := m.SaveSession()
 		check(err)
 
@@ -374,7 +380,9 @@ messageTypeSwitching:
 		m.mutex.Unlock()
 
 	case *objects.NewSessionCreated:
+		m.saltMutex.Lock()
 		m.serverSalt = message.ServerSalt
+		m.saltMutex.Unlock()
 		err := m.SaveSession()
 		if err != nil {
 			m.warnError(errors.Wrap(err, "saving session"))
